@@ -1345,6 +1345,8 @@ def _oracle(ctx, broken, hints):
             evals += len(ops)
             failures += _strict_failures(impl, ops, "hint", ctx)
     # (c) seeded histories with injected invalid calls, strict snapshot around every refused mutating call
+    # the large budget of a broken obligation is for finding a failing input: not needed once there is one
+    broken = broken and not failures
     n = ctx.budget(10, 100) * (4 if broken else 1)
     steps = ctx.budget(35, 60)
     for k in range(n):
